@@ -54,6 +54,11 @@ def make_scenario(rnd, counts, nues_choices=None, fault=None, opts=None):
     if opts.get("mcc"):
         mcc = opts["mcc"]
     mnc = "".join(rnd.choice("0123456789") for _ in range(mnc_len))
+    if "det" in opts:
+        # MNCs whose numeric value has fewer digits than the MNC (012, 007, 05): the serving network name and the PLMN octets must
+        # keep the configured digits; cycled with the run index
+        dg = lambda: rnd.choice("123456789")
+        mnc = ([dg() + mnc[1:], "0" + dg() + mnc[2:], "00" + dg()] if mnc_len == 3 else [mnc, dg() + mnc[1:], "0" + dg()])[opts["det"] % 3]
     imsi_len = opts.get("imsi_len", rnd.choice([13, 14, 15]))
     msin_len = imsi_len - 3 - mnc_len
     nreg = counts["reg"]
